@@ -330,4 +330,188 @@ theorem trap_depth_on_axis_partial (I : Input ℝ) (phi : List ℝ) (hg : GridMP
     · exact le_rfl
     · exact (List.pairwise_cons.mp hm).1 v hv'
 
+/-- **the trap potential lies between the potentials of the same beam at the nominal and at the
+space-charge-reduced electron velocity** (discrete form, exact solution of the ion-free problem on any
+admissible device grid): `φ_lo ≤ φ ≤ φ_hi`, where `φ_lo` / `φ_hi` are the finite-difference Poisson
+potentials of the uniform beam with the electron velocity frozen at `E + p_min` / at `E`; the analytic
+uniform-beam potentials of the property are their continuum limits -/
+theorem trap_potential_between_partial (I : Input ℝ) (phi philo phihi : List ℝ) (pm : ℝ)
+    (hg : GridMP (get I).grid) (hcur : 0 ≤ I.current)
+    (hphi : phi.length = (get I).grid.length) (hlo_len : philo.length = (get I).grid.length)
+    (hhi_len : phihi.length = (get I).grid.length)
+    (hfix : mulL 0 (get I).ldu phi = (step (deviceBP I) phi).b)
+    (hw : phi.getLast? = some 0) (hwlo : philo.getLast? = some 0) (hwhi : phihi.getLast? = some 0)
+    (hpm : ∀ p ∈ phi, pm ≤ p) (hpos : 0 < I.e_kin + pm)
+    (hlo : mulL 0 (get I).ldu philo = (beamDensity (get I).grid I.current I.r_e).map fun c =>
+      -c / Real.sqrt (2 * Const.Q_E * (I.e_kin + pm) / Const.M_E) / Const.EPS_0)
+    (hhi : mulL 0 (get I).ldu phihi = (beamDensity (get I).grid I.current I.r_e).map fun c =>
+      -c / Real.sqrt (2 * Const.Q_E * I.e_kin / Const.M_E) / Const.EPS_0) :
+    (∀ p ∈ List.zip philo phi, p.1 ≤ p.2) ∧ (∀ p ∈ List.zip phi phihi, p.1 ≤ p.2) := by
+  refine C13.beam_potential_between (deviceBP I) phi philo phihi pm rfl ?_ hg rfl hphi hlo_len hhi_len ?_ ?_
+    hfix hw hwlo hwhi hpm hpos hlo hhi
+  · intro s hs
+    simp only [deviceBP, ionFree, List.mem_singleton] at hs
+    subst hs; simp
+  · simp [deviceBP, beamDensity]
+  · exact C13.beamDensity_nonpos _ _ _ hcur
+
+/-! ## every device grid is admissible -/
+
+/-- closed form of the radial grid over ℝ: uniform on `[0, r_e)`, uniform on `[r_e, 2 r_e)`, geometric on
+`[2 r_e, r_dt]` -/
+theorem grid_closed_form (r_e r_dt : ℝ) (n_grid : ℕ) (hre : 0 < r_e) (hrd : 2 * r_e < r_dt) (hn : 6 ≤ n_grid) :
+    grid r_e r_dt n_grid =
+      (List.range (n_grid / 6)).map (fun (i : ℕ) => ((i : ℕ) : ℝ) * ((r_e - 0) / ((n_grid / 6 : ℕ) : ℝ)) + 0)
+      ++ (List.range (n_grid / 6)).map (fun (i : ℕ) => ((i : ℕ) : ℝ) * ((2 * r_e - r_e) / ((n_grid / 6 : ℕ) : ℝ)) + r_e)
+      ++ (List.range (n_grid / 6 * 4)).map (fun (i : ℕ) => (10 : ℝ) ^ (Real.log (2 * r_e) / Real.log 10 + ((i : ℕ) : ℝ) *
+          ((Real.log r_dt / Real.log 10 - Real.log (2 * r_e) / Real.log 10) / ((n_grid / 6 * 4 - 1 : ℕ) : ℝ)))) := by
+  have h2 : 0 < 2 * r_e := by linarith
+  have hrd0 : 0 < r_dt := by linarith
+  unfold grid
+  simp only [lit_real, Nat.cast_zero, Nat.cast_ofNat]
+  rw [linspace_open, linspace_open, geomspace_closed _ _ _ h2 hrd0 (by omega)]
+
+/-- **every device grid is admissible for the maximum principle**: for `n_grid ≥ 12` and a tube radius
+below `2 r_e · 3^(4k−1)` (`k = n_grid // 6`; for `n_grid ≥ 60` this is `r_dt < 10¹⁸ r_e`) consecutive
+nodes satisfy `r[i+1] ≤ 3 r[i]` from the second node on -/
+theorem device_grid_admissible (r_e r_dt : ℝ) (n_grid : ℕ) (hre : 0 < r_e) (hrd : 2 * r_e < r_dt)
+    (hn : 12 ≤ n_grid) (hmax : r_dt ≤ 2 * r_e * 3 ^ (4 * (n_grid / 6) - 1)) :
+    GridMP (grid r_e r_dt n_grid) := by
+  obtain ⟨hlen, hpw, h0, _, _⟩ := grid_spec r_e r_dt n_grid hre hrd (by omega)
+  set k := n_grid / 6 with hk
+  have hk2 : 2 ≤ k := by omega
+  have hkR : (0 : ℝ) < k := by exact_mod_cast (by omega : 0 < k)
+  have h2 : 0 < 2 * r_e := by linarith
+  have hrd0 : 0 < r_dt := by linarith
+  have hcf := grid_closed_form r_e r_dt n_grid hre hrd (by omega)
+  rw [← hk] at hcf
+  set f1 : ℕ → ℝ := fun i => (i : ℝ) * ((r_e - 0) / k) + 0 with hf1
+  set f2 : ℕ → ℝ := fun i => (i : ℝ) * ((2 * r_e - r_e) / k) + r_e with hf2
+  set st : ℝ := (Real.log r_dt / Real.log 10 - Real.log (2 * r_e) / Real.log 10) / ((k * 4 - 1 : ℕ) : ℝ) with hst
+  set f3 : ℕ → ℝ := fun i => (10 : ℝ) ^ (Real.log (2 * r_e) / Real.log 10 + (i : ℝ) * st) with hf3
+  set g := grid r_e r_dt n_grid with hgdef
+  have hl10 : 0 < Real.log 10 := Real.log_pos (by norm_num)
+  -- element access
+  have g1 : ∀ i (h : i < g.length), i < k → g[i] = f1 i := by
+    intro i h hi
+    have : g[i]? = some (f1 i) := by
+      rw [hcf, List.append_assoc, List.getElem?_append_left (by simp; omega), List.getElem?_map, List.getElem?_range hi]; rfl
+    exact (List.getElem?_eq_some_iff.mp this).2
+  have g2 : ∀ i (h : i < g.length), k ≤ i → i < 2 * k → g[i] = f2 (i - k) := by
+    intro i h hi1 hi2
+    have : g[i]? = some (f2 (i - k)) := by
+      rw [hcf, List.append_assoc, List.getElem?_append_right (by simp; omega), List.getElem?_append_left (by simp; omega)]
+      simp only [List.length_map, List.length_range]
+      rw [List.getElem?_map, List.getElem?_range (by omega)]; rfl
+    exact (List.getElem?_eq_some_iff.mp this).2
+  have g3 : ∀ i (h : i < g.length), 2 * k ≤ i → g[i] = f3 (i - 2 * k) := by
+    intro i h hi1
+    have : g[i]? = some (f3 (i - 2 * k)) := by
+      rw [hcf, List.getElem?_append_right (by simp; omega)]
+      simp only [List.length_append, List.length_map, List.length_range]
+      rw [List.getElem?_map, List.getElem?_range (by rw [hlen] at h; omega)]
+      have : i - (k + k) = i - 2 * k := by omega
+      rw [this]; rfl
+    exact (List.getElem?_eq_some_iff.mp this).2
+  -- bounds on the three pieces
+  have e1 : (k : ℝ) * ((r_e - 0) / k) = r_e := by field_simp; ring
+  have e2 : (k : ℝ) * ((2 * r_e - r_e) / k) = r_e := by field_simp; ring
+  have hs1 : 0 < (r_e - 0) / k := by apply div_pos <;> linarith
+  have hs2 : 0 < (2 * r_e - r_e) / k := by apply div_pos <;> linarith
+  have f2lo : ∀ i : ℕ, r_e ≤ f2 i := by
+    intro i; simp only [hf2]; have : (0 : ℝ) ≤ i := Nat.cast_nonneg i; nlinarith
+  have f2hi : ∀ i : ℕ, i ≤ k → f2 i ≤ 2 * r_e := by
+    intro i hi; simp only [hf2]
+    have : (i : ℝ) ≤ k := by exact_mod_cast hi
+    nlinarith
+  have f30 : f3 0 = 2 * r_e := by
+    simp only [hf3, Nat.cast_zero, zero_mul, add_zero]
+    exact Real.rpow_logb (b := 10) (by norm_num) (by norm_num) h2
+  have hkm : (0 : ℝ) < ((k * 4 - 1 : ℕ) : ℝ) := by
+    have : 0 < k * 4 - 1 := by omega
+    exact_mod_cast this
+  have hst3 : st ≤ Real.log 3 / Real.log 10 := by
+    rw [hst, div_le_iff₀ hkm, ← sub_div, div_mul_eq_mul_div, div_le_div_iff_of_pos_right hl10]
+    have hq : r_dt / (2 * r_e) ≤ 3 ^ (4 * k - 1) := by rw [div_le_iff₀ h2]; linarith [hmax]
+    have := Real.log_le_log (div_pos hrd0 h2) hq
+    rw [Real.log_div hrd0.ne' h2.ne', Real.log_pow] at this
+    have hc : ((4 * k - 1 : ℕ) : ℝ) = ((k * 4 - 1 : ℕ) : ℝ) := by congr 1; omega
+    rw [hc] at this
+    linarith
+  have f3step : ∀ i : ℕ, f3 (i + 1) ≤ 3 * f3 i := by
+    intro i
+    simp only [hf3]
+    have e : Real.log (2 * r_e) / Real.log 10 + ((i + 1 : ℕ) : ℝ) * st =
+        (Real.log (2 * r_e) / Real.log 10 + (i : ℝ) * st) + st := by push_cast; ring
+    rw [e, Real.rpow_add (by norm_num), mul_comm]
+    apply mul_le_mul_of_nonneg_right _ (Real.rpow_nonneg (by norm_num) _)
+    calc (10 : ℝ) ^ st ≤ 10 ^ (Real.log 3 / Real.log 10) :=
+          Real.rpow_le_rpow_of_exponent_le (by norm_num) hst3
+      _ = 3 := Real.rpow_logb (b := 10) (by norm_num) (by norm_num) (by norm_num)
+  -- assemble
+  refine gridMP_of_indexed g (by rw [hlen]; omega) hpw ?_ ?_
+  · have : g[0]? = some 0 := h0
+    rw [(List.getElem?_eq_some_iff.mp this).2]; simp
+  · intro i hi h
+    rw [hlen] at h
+    by_cases c1 : i + 1 < k
+    · rw [g1 (i + 1) (by omega) c1, g1 i (by omega) (by omega)]
+      simp only [hf1]
+      have : (1 : ℝ) ≤ i := by exact_mod_cast hi
+      push_cast; nlinarith
+    · by_cases c2 : i + 1 < 2 * k
+      · rw [g2 (i + 1) (by omega) (by omega) c2]
+        have hup := f2hi (i + 1 - k) (by omega)
+        by_cases c3 : i < k
+        · -- junction: i = k - 1
+          rw [g1 i (by omega) c3]
+          have hz : i + 1 - k = 0 := by omega
+          rw [hz]
+          simp only [hf1, hf2]
+          have hik : (i : ℝ) = k - 1 := by
+            have : i + 1 = k := by omega
+            have : ((i + 1 : ℕ) : ℝ) = k := by exact_mod_cast this
+            push_cast at this; linarith
+          have hk2R : (2 : ℝ) ≤ k := by exact_mod_cast hk2
+          have hsmall : (r_e - 0) / k ≤ r_e / 2 := by
+            rw [sub_zero, div_le_div_iff₀ hkR (by norm_num)]; nlinarith
+          have hprod : (i : ℝ) * ((r_e - 0) / k) = r_e - (r_e - 0) / k := by
+            rw [hik]; nlinarith
+          rw [hprod]; push_cast; linarith
+        · rw [g2 i (by omega) (by omega) (by omega)]
+          have := f2lo (i - k)
+          linarith
+      · by_cases c3 : i < 2 * k
+        · -- junction: i + 1 = 2k
+          rw [g3 (i + 1) (by omega) (by omega), g2 i (by omega) (by omega) c3]
+          have : i + 1 - 2 * k = 0 := by omega
+          rw [this, f30]
+          have := f2lo (i - k)
+          linarith
+        · rw [g3 (i + 1) (by omega) (by omega), g3 i (by omega) (by omega)]
+          have : i + 1 - 2 * k = (i - 2 * k) + 1 := by omega
+          rw [this]
+          exact f3step _
+
+/-- **the device's trap potential well, for every device grid** (exact solution of the discretised
+ion-free problem) -/
+theorem trap_potential_well_device_partial (I : Input ℝ) (phi : List ℝ)
+    (hre : 0 < I.r_e) (hrd : 2 * I.r_e < I.r_dt) (hn : 12 ≤ I.n_grid)
+    (hmax : I.r_dt ≤ 2 * I.r_e * 3 ^ (4 * (I.n_grid / 6) - 1))
+    (hcur : 0 ≤ I.current) (hphi : phi.length = (get I).grid.length)
+    (hfix : mulL 0 (get I).ldu phi = (step (deviceBP I) phi).b) (hw : phi.getLast? = some 0) :
+    List.Pairwise (· ≤ ·) phi ∧ ∀ v ∈ phi, v ≤ 0 :=
+  trap_potential_well_partial I phi (device_grid_admissible I.r_e I.r_dt I.n_grid hre hrd hn hmax) hcur hphi hfix hw
+
+-- non-vacuity: r_e = 100 µm, r_dt = 5 mm, 400 nodes
+example : (0 : ℝ) < 1e-4 ∧ 2 * (1e-4 : ℝ) < 5e-3 ∧ 12 ≤ 400 ∧ (5e-3 : ℝ) ≤ 2 * 1e-4 * 3 ^ (4 * (400 / 6) - 1) := by
+  refine ⟨by norm_num, by norm_num, by norm_num, ?_⟩
+  have h27 : (3 : ℝ) ^ 3 ≤ 3 ^ (4 * (400 / 6) - 1) := pow_le_pow_right₀ (by norm_num) (by norm_num)
+  have e27 : (3 : ℝ) ^ 3 = 27 := by norm_num
+  rw [e27] at h27
+  have h5 : (5e-3 : ℝ) = 2 * 1e-4 * 25 := by norm_num
+  rw [h5]
+  apply mul_le_mul_of_nonneg_left _ (by norm_num)
+  exact le_trans (by norm_num : (25 : ℝ) ≤ 27) h27
+
 end C14
